@@ -62,6 +62,7 @@ pub fn gen_stream(name: &str, seed: u64, n: usize, tier: &str) -> Vec<String> {
         "run" => progs::generate_run(&mut rng, n, tier, &["chia"], "any"),
         "run_runtime" => progs::generate_run(&mut rng, n, tier, &["runtime"], "any"),
         "run_gc" => progs::generate_run_gc(&mut rng, n, tier),
+        "paths" => progs::generate_paths(&mut rng, n, tier),
         "run_default" => progs::generate_run(&mut rng, n, tier, &["chia"], "default"),
         "op" => progs::generate_op(&mut rng, n, tier, None),
         "unknown" => progs::generate_unknown(&mut rng, n, tier),
